@@ -237,62 +237,78 @@ def evalList : List Expr → S.W → Option (List S.V × S.W)
 inductive Out (W : Type)
   | normal (w : W) | brk (w : W) | cont (w : W) | next (w : W) | exit (w : W)
 
-/-- Execute a statement with a fuel bound on loop iterations (`none` = runtime error or fuel exhausted). -/
+/-- One pass of a loop whose condition was just found true: run the body, then `post`, then the rest of the loop
+(`ex` is the evaluator with the remaining fuel). `break` ends the loop normally, `continue` goes on with `post`. -/
+def loopBody (ex : Stmt → S.W → Option (Out S.W)) (c : Option Expr) (b post : Stmt) (w : S.W) : Option (Out S.W) :=
+  match ex b w with
+  | none => none
+  | some (.normal w1) | some (.cont w1) =>
+    match ex post w1 with
+    | none => none
+    | some (.normal w2) => ex (.for .skip c post b) w2
+    | some o => some o
+  | some (.brk w1) => some (.normal w1)
+  | some o => some o
+
+/-- Execute a statement with a fuel bound on nesting depth + loop iterations (`none` = runtime error or fuel exhausted). -/
 def exec : Nat → Stmt → S.W → Option (Out S.W)
   | 0, _, _ => none
   | n+1, s, w =>
-    -- the loop after one evaluation of the condition gave `true`: run the body, then `post`, then iterate
-    let loop (c : Option Expr) (b post : Stmt) (w : S.W) : Option (Out S.W) := do
-      match ← exec n b w with
-      | .normal w1 | .cont w1 =>
-        match ← exec n post w1 with
-        | .normal w2 => exec n (.for .skip c post b) w2
-        | o => some o
-      | .brk w1 => some (.normal w1)
-      | o => some o
     match s with
     | .skip => some (.normal w)
-    | .seq s t => do
-      match ← exec n s w with
-      | .normal w1 => exec n t w1
-      | o => some o
-    | .expr e => do
-      let (_, w1) ← eval S e w
-      some (.normal w1)
-    | .print args => do
-      let (vs, w1) ← evalList S args w
-      let w2 ← S.print vs w1
-      some (.normal w2)
-    | .ifThen c b => do
-      let (cv, w1) ← eval S c w
-      if S.toBool cv then exec n b w1 else some (.normal w1)
-    | .ifElse c b e => do
-      let (cv, w1) ← eval S c w
-      if S.toBool cv then exec n b w1 else exec n e w1
+    | .seq s t =>
+      match exec n s w with
+      | none => none
+      | some (.normal w1) => exec n t w1
+      | some o => some o
+    | .expr e =>
+      match eval S e w with
+      | none => none
+      | some (_, w1) => some (.normal w1)
+    | .print args =>
+      match evalList S args w with
+      | none => none
+      | some (vs, w1) =>
+        match S.print vs w1 with
+        | none => none
+        | some w2 => some (.normal w2)
+    | .ifThen c b =>
+      match eval S c w with
+      | none => none
+      | some (cv, w1) => if S.toBool cv then exec n b w1 else some (.normal w1)
+    | .ifElse c b e =>
+      match eval S c w with
+      | none => none
+      | some (cv, w1) => if S.toBool cv then exec n b w1 else exec n e w1
     | .while c b => exec n (.for .skip (some c) .skip b) w
-    | .doWhile b c => do
-      match ← exec n b w with
-      | .normal w1 | .cont w1 =>
-        let (cv, w2) ← eval S c w1
-        if S.toBool cv then exec n (.doWhile b c) w2 else some (.normal w2)
-      | .brk w1 => some (.normal w1)
-      | o => some o
-    | .for pre c post b => do
-      match ← exec n pre w with
-      | .normal w0 =>
+    | .doWhile b c =>
+      match exec n b w with
+      | none => none
+      | some (.normal w1) | some (.cont w1) =>
+        match eval S c w1 with
+        | none => none
+        | some (cv, w2) => if S.toBool cv then exec n (.doWhile b c) w2 else some (.normal w2)
+      | some (.brk w1) => some (.normal w1)
+      | some o => some o
+    | .for pre c post b =>
+      match exec n pre w with
+      | none => none
+      | some (.normal w0) =>
         match c with
-        | none => loop none b post w0
+        | none => loopBody S (exec n) none b post w0
         | some ce =>
-          let (cv, w1) ← eval S ce w0
-          if S.toBool cv then loop c b post w1 else some (.normal w1)
-      | o => some o
+          match eval S ce w0 with
+          | none => none
+          | some (cv, w1) => if S.toBool cv then loopBody S (exec n) c b post w1 else some (.normal w1)
+      | some o => some o
     | .brk => some (.brk w)
     | .cont => some (.cont w)
     | .next => some (.next w)
     | .exit none => some (.exit w)
-    | .exit (some e) => do
-      let (v, w1) ← eval S e w
-      some (.exit (S.setExit v w1))
+    | .exit (some e) =>
+      match eval S e w with
+      | none => none
+      | some (v, w1) => some (.exit (S.setExit v w1))
     | .block b => exec n b w
 
 end Eval
